@@ -765,6 +765,21 @@ func (a *effectsAnalysis) callEffects(fn *ssa.Function, ef *Effects, site ssa.Ca
 		return // package initialisers of imports
 	}
 	m, ok := models[name]
+	if !ok && c.IsInvoke() && !a.w.InRepoPath(pkgPathOfType(c.Value.Type())) {
+		if _, anon := c.Value.Type().(*types.Named); !anon || !strings.Contains(pkgPathOfType(c.Value.Type()), ".") {
+			// a method of a caller-supplied object behind an anonymous or
+			// standard-library interface (io.Reader, hash.Hash, interface{Equal(..)}, …):
+			// its behaviour is the caller's; it can write its receiver and what it is handed
+			for _, arg := range full {
+				switch arg.Type().Underlying().(type) {
+				case *types.Pointer, *types.Slice, *types.Map, *types.Interface:
+					p := a.argPointeeProv(arg)
+					a.write(ef, p, WriteSite{Instr: site, What: "invoke " + c.Method.Name() + " on a caller-supplied object (may write it and its pointer arguments)", Prov: p})
+				}
+			}
+			return
+		}
+	}
 	if !ok && isStdlibCallee(name) {
 		// standard-library default: a function without a model entry can write
 		// only through the pointers, slices and maps it is handed; it cannot
